@@ -424,4 +424,6 @@ def run(ck, tier):
                     break
     ck.floor('R4', n4, 8, 'paths of the integer adders')
     ck.assume('value-level round trips (signs, NaN, subnormals) rest on struct, which is trusted')
+    from .. import ownership as _own
+    ck.guard(_own.rule_instance_owned, ck, cx, 'R5', _own.PAYLOAD, 'values added to one builder appear in the payload of another', 1)
     return cx.idx
